@@ -171,6 +171,8 @@ func runC04(c *eng.Ctx) {
 
 	// ---- 4/5. source bookkeeping ---------------------------------------------------------------------------------------------------
 	c.Rule("ORDER", famT+".rollup{commit<clean references}", func() { rollupCommitBeforeClean(c) })
+	c.Rule("ERRFLOW", "kv{the outcome of a manifest commit that installs job output reaches the job's caller}", func() { commitResultExamined(c) })
+	c.Rule("ORDER", cjT+".installCompactionResults{one commit}", func() { installOneCommit(c) })
 
 	// ---- 5b. one rollup job per source family at a time ---------------------------------------------------------------------------------
 	c.Rule("ATOMIC", famT+".rollup{single flight}", func() { singleFlight(c, famT+".rolluping", famT+".rollup") })
@@ -516,7 +518,7 @@ func referenceKeySymmetry(c *eng.Ctx) {
 	// one spelling of the store key on all three sides (look-up, record, delete): the source store's full name and its last path
 	// segment both "derive from the source store"; a look-up under one and a record under the other never meet
 	norm := func(v ssa.Value, fn *ssa.Function) string {
-		d := p.Desc(v)
+		d := p.DescUp(eng.Unwrap(eng.UpParam(v)))
 		for _, pr := range fn.Params {
 			d = strings.ReplaceAll(d, pr.Name()+".", "$.")
 		}
@@ -531,4 +533,56 @@ func referenceKeySymmetry(c *eng.Ctx) {
 		k := norm(eng.CallArgs(r.Instr.(*ssa.Call))[0], cr)
 		c.Check(k == lookupKey, fmt.Sprintf("same-store-key:delete[%d]", i), r.Instr, cr, "the reference is deleted under the very store key it is looked up by", "look-up key "+lookupKey+", delete key "+k)
 	}
+}
+
+// commitResultExamined (F43, shared by C04 and C01): family.commitEditLog reports a failed manifest commit as `false`. Wherever the
+// edit log carries the OUTPUT of a job (flush, compaction, rollup), the caller must see the failure, otherwise the job is reported
+// done: the rollup source then deletes its needs-rollup marks (and later the files) although the target never got the data.
+func commitResultExamined(c *eng.Ctx) {
+	p := c.P
+	exempt := map[string]string{
+		"kv.compactJob.moveCompaction":  "metadata-only move of one file to the next level: a failed commit leaves the file where it was",
+		"kv.family.cleanReferenceFiles": "a failed clean keeps the reference marks: the source files stay known as rolled up (the safe side)",
+	}
+	n := 0
+	for _, fn := range p.FuncsWithPrefix("kv.") {
+		for _, s := range p.SitesDirect(fn, eng.AnyCallTo("kv.family.commitEditLog", "kv.Family.commitEditLog")) {
+			n++
+			k := topFunc(c, fn)
+			if why, ok := exempt[k]; ok {
+				c.Check(true, "exempt@"+k, s.Instr, fn, "the result of this commit need not be examined: "+why, "")
+				continue
+			}
+			v := s.Instr.(ssa.Value)
+			used := v.Referrers() != nil && len(*v.Referrers()) > 0
+			c.Check(used, "result-examined@"+k, s.Instr, fn,
+				"the outcome of the manifest commit that installs a job's output is examined and reaches the job's caller", "the boolean result of commitEditLog is discarded")
+			if used && fn.Signature.Results().Len() > 0 {
+				// … and a failure is reported: some return of the function is reachable only on the `false` edge
+				_, fe := eng.BoolCheckEdges(fn, v)
+				c.Check(len(fe) > 0 || returnsValue(fn, v), "failure-reported@"+k, s.Instr, fn, "a failed commit is turned into the function's failing result", "")
+			}
+		}
+	}
+	c.Check(n >= 4, "commit-sites-found", nil, nil, "flush, compaction and rollup commit through family.commitEditLog", fmt.Sprintf("%d sites", n))
+	// the compaction job hands the failure on
+	mc := c.Fn("kv.compactJob.mergeCompaction")
+	for i, s := range c.Some(mc, eng.CallTo("kv.compactJob.installCompactionResults"), "installCompactionResults()") {
+		v, isVal := s.Instr.(ssa.Value)
+		used := isVal && v.Referrers() != nil && len(*v.Referrers()) > 0
+		c.Check(used, fmt.Sprintf("install-result-propagated[%d]", i), s.Instr, mc, "mergeCompaction returns the failure of installing its results", "installCompactionResults' outcome is not looked at")
+	}
+}
+
+func returnsValue(fn *ssa.Function, v ssa.Value) bool {
+	for _, b := range fn.Blocks {
+		if r, ok := b.Instrs[len(b.Instrs)-1].(*ssa.Return); ok {
+			for _, res := range r.Results {
+				if eng.DependsOn(res, func(x ssa.Value) bool { return x == v }) {
+					return true
+				}
+			}
+		}
+	}
+	return false
 }
